@@ -7,6 +7,8 @@
 #[path = "/verif/engines/sysmon/marker.rs"]
 pub mod marker;
 #[cfg(not(miri))]
+pub mod intr;
+#[cfg(not(miri))]
 pub mod mon;
 #[cfg(not(miri))]
 pub mod stream;
